@@ -674,9 +674,13 @@ def r_leaf_skip_and_filter(ctx):
             leaf_facts = [(fct, d) for fct, d in path_facts(p) if d.loops]
             is_leaf_iter = any((fct[0] == "eq" and fct[2] == 0 and fct[1][0] == "f" and fct[1][2] == "run_length") or
                                (fct[0] == "bool" and is_call_to(fct[1], lambda s: s.endswith("::is_leaf_dir_entry")) and fct[2] is True) for fct, d in leaf_facts)
+            # an iteration in which nothing refuted "this entry is a leaf pointer" may be handling one (a skip placed before the leaf/tile dispatch)
+            not_leaf = any((fct[0] == "ne" and fct[2] == 0 and fct[1][0] == "f" and fct[1][2] == "run_length") or
+                           (fct[0] == "bool" and is_call_to(fct[1], lambda s: s.endswith("::is_leaf_dir_entry")) and fct[2] is False) for fct, d in leaf_facts)
+            in_iter = any(e.kind == "loop" and e.d["what"] == "enter" for e in p.events)
             ends_iter = any(e.kind == "loop" and e.d["what"] == "exit" for e in p.events)
             errs_out = p.exit == "err"
-            if is_leaf_iter and not recs and ends_iter and not errs_out:
+            if (is_leaf_iter or (in_iter and not not_leaf)) and not recs and ends_iter and not errs_out:
                 skip_seen = True
                 rels = []
                 for fct, d in leaf_facts:
